@@ -111,6 +111,7 @@ Scheme Equality for err.
 Scheme Equality for cst.
 Scheme Equality for pc.
 Scheme Equality for phase.
+Scheme Equality for watch.
 Scheme Equality for cstate.
 
 Lemma all_labels_complete : forall l, In l all_labels.
@@ -131,8 +132,9 @@ Definition ph_code (p : phase) : N :=
   match p with PInit => 0 | PPlay p => 1 + pc_code p | PFinal => 15 | PRet e => 16 + err_code e end%N.
 Definition hash_state (s : cstate) : positive :=
   N.succ_pos
-    ((((((((ph_code (ph s) * 6 + cst_code (sP s)) * 6 + cst_code (sS s)) * 6 + cst_code (sA s)) * 6 + cst_code (sK s)) * 2
-        + b2n (cP s)) * 2 + b2n (cS s)) * 2 + b2n (quiesce s)) * 4 + err_code (fe s))%N.
+    (((((((((ph_code (ph s) * 6 + cst_code (sP s)) * 6 + cst_code (sS s)) * 6 + cst_code (sA s)) * 6 + cst_code (sK s)) * 2
+        + b2n (cP s)) * 2 + b2n (cS s)) * 2 + b2n (quiesce s)) * 4 + err_code (fe s)) * 8
+       + b2n (wS (wt s)) * 4 + b2n (wA (wt s)) * 2 + b2n (wK (wt s)))%N.
 
 Definition is_some {A} (o : option A) : bool := match o with Some _ => true | None => false end.
 Definition is_ret (s : cstate) : bool := match ph s with PRet _ => true | _ => false end.
@@ -238,7 +240,7 @@ Proof.
 Qed.
 
 (** ** C07: termination.  Every step other than a scene start decreases
-    [measure] (at most [measure (init h)] = 45 such steps in any run), and in
+    [measure] (at most [measure (init h)] = 48 such steps in any run), and in
     every reachable state that has not returned an obliged label is enabled,
     unless the prompter hangs in a command that does not end. *)
 Lemma step_decreases h ls s l s' :
@@ -293,7 +295,7 @@ Qed.
 Lemma conduct_stuck_when_command_hangs :
   exists ls s, run (init true) ls = Some s /\ returned s = None /\ forall l, step s l = None.
 Proof.
-  exists [LCleanup1 true; LQuiesce; LFin CS ENil; LFin CA ENil; LFin CK ENil; LPick CS].
+  exists [LCleanup1 true; LQuiesce; LFin CS ENil; LFin CA ENil; LFin CK ENil; LPick CS; LPick CA; LPick CK].
   eexists. split; [vm_compute; reflexivity|]. split; [reflexivity|].
   intros l. destruct l as [[]| |[] []|[] []|[]| |[]|[]]; vm_compute; reflexivity.
 Qed.
